@@ -37,7 +37,8 @@ class Gen:
         return ("P", self.tag)
 
     def A(self):
-        return ("A", self.r.choice(["x = x + %d" % self.r.range(1, 5), "x = x * 2 + 1", "y = y + x", "x = x - 1", "y = y * 3 - x"]))
+        return ("A", self.r.choice(["x = x + %d" % self.r.range(1, 5), "x = x * 2 + 1", "y = y + x", "x = x - 1", "y = y * 3 - x",
+                                    "p = p + %d" % self.r.range(1, 4), "p = p * 2 - x", "x = x + p"]))
 
     def simple(self, n):
         return [self.P() if self.r.chance(60) else self.A() for _ in range(n)]
@@ -87,7 +88,7 @@ def render_stmts(name, b, ind):
     for s in b:
         k = s[0]
         if k == "P":
-            L.append(ind + "println(%s, %d, x, y);\n" % (name if name == "nm" else '"%s"' % name, s[1]))
+            L.append(ind + "println(%s, %d, x, y, p);\n" % (name if name == "nm" else '"%s"' % name, s[1]))
         elif k == "A":
             L.append(ind + s[1] + ";\n")
         elif k == "Y":
@@ -117,7 +118,7 @@ def wrap32(v):
 
 def run_alone(name, b, p):
     """reference: what the body prints / returns when executed sequentially"""
-    env = {"x": p, "y": 1}
+    env = {"x": p, "y": 1, "p": p}
     out = []
 
     def ev(expr):
@@ -127,7 +128,7 @@ def run_alone(name, b, p):
         for s in stmts:
             k = s[0]
             if k == "P":
-                out.append("%s %d %d %d" % (name, s[1], env["x"], env["y"]))
+                out.append("%s %d %d %d %d" % (name, s[1], env["x"], env["y"], env["p"]))
             elif k == "A":
                 var, e = s[1].split(" = ", 1)
                 env[var] = wrap32(ev(e))
